@@ -3,10 +3,13 @@ package rules
 import (
 	"fmt"
 	"go/ast"
+	"go/constant"
 	"go/token"
 	"go/types"
 	"golang.org/x/tools/go/ssa"
+	"strconv"
 	"strings"
+	"verif/checker/report"
 
 	"verif/checker/cfgx"
 )
@@ -662,6 +665,232 @@ func RuleK2p(c *Ctx) {
 	} else {
 		sc.Violation("scanner", "-", "no scanner predicate calls the directive look-ahead: description text would run over the following directives")
 	}
+	c.lookAheadShape(sc, pk, look)
+}
+
+// lookAheadShape: the look-ahead agrees with the scanner's keyword set in three
+// structural respects. (a) A "too short to be a directive" guard rejects only lines
+// shorter than the shortest spelled keyword. (b) The loop over the name table skips only
+// kinds that have no spelled keyword in the scanner (the response code, which is matched by
+// its digits), and a table entry is matched by a plain prefix test. (c) Nothing in the
+// look-ahead treats LF differently from CR: a function of its tree that mentions one of the
+// two line-break bytes mentions the other too.
+func (c *Ctx) lookAheadShape(sc *report.RuleScope, pk *pkgT, look *types.Func) {
+	info := pk.TypesInfo
+	fd := c.P.Decl(look)
+	_, pds, err := c.Machine()
+	names := c.DirectiveNames()
+	if fd == nil || err != nil || pds == nil || len(names) == 0 {
+		sc.Undecided("shape", "-", "unresolved anchor: scanner automaton / directive name table")
+		return
+	}
+	minLen := 1 << 30
+	spelled := map[string]bool{}
+	for kind, nm := range names {
+		if pds.Keywords[nm] {
+			spelled[kind] = true
+			if len(nm) < minLen {
+				minLen = len(nm)
+			}
+		}
+	}
+	if len(spelled) < 10 {
+		sc.Undecided("shape", "-", "fewer than ten spelled keywords found in the scanner automaton")
+		return
+	}
+	cf := c.CFG(pk, fd.Body)
+	// (a) length guards whose branch returns false
+	nGuards := 0
+	inspectNoLit(fd.Body, func(n ast.Node) bool {
+		ifs, ok := n.(*ast.IfStmt)
+		if !ok || len(ifs.Body.List) == 0 {
+			return true
+		}
+		ret, ok := ifs.Body.List[len(ifs.Body.List)-1].(*ast.ReturnStmt)
+		if !ok || len(ret.Results) != 1 {
+			return true
+		}
+		if tv, has := info.Types[ret.Results[0]]; !has || tv.Value == nil || tv.Value.String() != "false" {
+			return true
+		}
+		max, isLenGuard := maxLenWhenTrue(info, cf, ifs.Cond)
+		if !isLenGuard {
+			return true
+		}
+		nGuards++
+		key := fmt.Sprintf("short-line-guard#%d", nGuards)
+		if max < int64(minLen) {
+			sc.Holds(key, c.P.Pos(ifs.Pos()), fmt.Sprintf("rejects lines of at most %d bytes; the shortest spelled keyword has %d", max, minLen))
+		} else {
+			sc.Violation(key, c.P.Pos(ifs.Pos()), fmt.Sprintf("the look-ahead answers 'not a directive' for every line of at most %d bytes, but the scanner spells keywords of %d bytes: a bare short keyword on its own line no longer ends a description and is swallowed into the text", max, minLen))
+		}
+		return true
+	})
+	// (b) skips in the loop over the table
+	enumT := c.Named("directive", "Enumeration")
+	consts := map[types.Object]string{}
+	if enumT != nil {
+		for _, k := range EnumConsts(pk, enumT) {
+			consts[k] = k.Name()
+		}
+	}
+	nSkips := 0
+	inspectNoLit(fd.Body, func(n ast.Node) bool {
+		var body *ast.BlockStmt
+		switch l := n.(type) {
+		case *ast.ForStmt:
+			body = l.Body
+		case *ast.RangeStmt:
+			body = l.Body
+		}
+		if body == nil {
+			return true
+		}
+		inspectNoLit(body, func(y ast.Node) bool {
+			ifs, ok := y.(*ast.IfStmt)
+			if !ok || len(ifs.Body.List) == 0 {
+				return true
+			}
+			br, ok := ifs.Body.List[len(ifs.Body.List)-1].(*ast.BranchStmt)
+			if !ok || br.Tok != token.CONTINUE {
+				return true
+			}
+			nSkips++
+			key := fmt.Sprintf("skip#%d", nSkips)
+			var bad []string
+			understood := true
+			var walk func(e ast.Expr)
+			walk = func(e ast.Expr) {
+				e = ast.Unparen(e)
+				be, ok := e.(*ast.BinaryExpr)
+				if !ok {
+					understood = false
+					return
+				}
+				switch be.Op {
+				case token.LOR:
+					walk(be.X)
+					walk(be.Y)
+				case token.EQL:
+					var k string
+					for _, side := range []ast.Expr{be.X, be.Y} {
+						if id, ok := ast.Unparen(side).(*ast.Ident); ok {
+							if nm, isConst := consts[info.ObjectOf(id)]; isConst {
+								k = nm
+							}
+						}
+						if sel, ok := ast.Unparen(side).(*ast.SelectorExpr); ok {
+							if nm, isConst := consts[info.ObjectOf(sel.Sel)]; isConst {
+								k = nm
+							}
+						}
+					}
+					if k == "" {
+						understood = false
+					} else if spelled[k] {
+						bad = append(bad, k)
+					}
+				default:
+					understood = false
+				}
+			}
+			walk(ifs.Cond)
+			switch {
+			case len(bad) > 0:
+				sc.Violation(key, c.P.Pos(ifs.Pos()), "the look-ahead skips "+strings.Join(bad, ", ")+", which the scanner spells as a keyword: a line starting with it no longer ends a description, so the directive (and, for INCLUDE, the whole file) is swallowed into the text")
+			case !understood:
+				sc.Undecided(key, c.P.Pos(ifs.Pos()), "skip condition "+types.ExprString(ifs.Cond)+" is not a comparison with directive kinds")
+			default:
+				sc.Holds(key, c.P.Pos(ifs.Pos()), "skips only kinds without a spelled keyword ("+types.ExprString(ifs.Cond)+")")
+			}
+			return true
+		})
+		return false
+	})
+	// (c) LF and CR alike in the whole tree of the look-ahead
+	for _, g := range reachStatic(c.P, pk, []*types.Func{look}) {
+		gd := c.P.Decl(g)
+		if gd == nil {
+			continue
+		}
+		lf, cr := token.NoPos, token.NoPos
+		ast.Inspect(gd.Body, func(n ast.Node) bool {
+			lit, ok := n.(*ast.BasicLit)
+			if !ok || (lit.Kind != token.CHAR && lit.Kind != token.STRING) {
+				return true
+			}
+			v, err := strconv.Unquote(lit.Value)
+			if err != nil {
+				return true
+			}
+			if strings.Contains(v, "\n") && lf == token.NoPos {
+				lf = lit.Pos()
+			}
+			if strings.Contains(v, "\r") && cr == token.NoPos {
+				cr = lit.Pos()
+			}
+			return true
+		})
+		key := "line-breaks:" + g.Name()
+		switch {
+		case lf == token.NoPos && cr == token.NoPos:
+			sc.Holds(key, c.P.Pos(gd.Pos()), "mentions no line-break byte")
+		case lf != token.NoPos && cr != token.NoPos:
+			sc.Holds(key, c.P.Pos(gd.Pos()), "mentions LF and CR")
+		case lf != token.NoPos:
+			sc.Violation(key, c.P.Pos(lf), "the look-ahead treats LF specially and never mentions CR: with CR or CRLF line ends the same document is delimited differently")
+		default:
+			sc.Violation(key, c.P.Pos(cr), "the look-ahead treats CR specially and never mentions LF")
+		}
+	}
+}
+
+// maxLenWhenTrue: for a condition that bounds a length from above (len(x) < K, len(x) <= K,
+// K > len(x), len(x) == 0 ...) it returns the largest length for which it is true.
+func maxLenWhenTrue(info *types.Info, cf *cfgx.Func, cond ast.Expr) (int64, bool) {
+	be, ok := ast.Unparen(cond).(*ast.BinaryExpr)
+	if !ok {
+		return 0, false
+	}
+	constOf := func(x ast.Expr) (int64, bool) {
+		tv, ok := info.Types[x]
+		if !ok || tv.Value == nil || tv.Value.Kind() != constant.Int {
+			return 0, false
+		}
+		return constant.Int64Val(tv.Value)
+	}
+	op := be.Op
+	l, r := be.X, be.Y
+	if _, isLen := lengthExpr(info, cf.Resolve(l)); !isLen {
+		if _, isLen2 := lengthExpr(info, cf.Resolve(r)); !isLen2 {
+			return 0, false
+		}
+		l, r = r, l
+		switch op {
+		case token.LSS:
+			op = token.GTR
+		case token.GTR:
+			op = token.LSS
+		case token.LEQ:
+			op = token.GEQ
+		case token.GEQ:
+			op = token.LEQ
+		}
+	}
+	_ = l
+	k, ok := constOf(r)
+	if !ok {
+		return 0, false
+	}
+	switch op {
+	case token.LSS:
+		return k - 1, true
+	case token.LEQ:
+		return k, true
+	case token.EQL:
+		return k, true
+	}
+	return 0, false
 }
 
 func isByte(t types.Type) bool {
@@ -1363,4 +1592,44 @@ func (c *Ctx) allOfExpander() *types.Func {
 		return found[0]
 	}
 	return nil
+}
+
+// ---------------------------------------------------------------- Q2
+
+// RuleQ2: quotes come off first. Every Unquote() of the schema library's Bytes is applied
+// to the value as written (an accessor result, a field, a parameter), never to the result
+// of another end-sensitive Bytes transformation such as TrimSquareBrackets: with the other
+// order the quoted spelling of a value ("[@cat]") is classified differently from the bare
+// one ([@cat]).
+func RuleQ2(c *Ctx) {
+	sc := c.Run.Begin("Q2", "Unquote is applied before any other end-sensitive transformation of a parameter value: its receiver is never the result of another Bytes-to-Bytes method (whitespace trims excepted)", 3)
+	defer sc.End()
+	n := 0
+	perFn := map[*ast.FuncDecl]int{}
+	c.eachCall(func(cs callSite) {
+		info := cs.Pk.TypesInfo
+		f := Callee(info, cs.Call)
+		if f == nil || f.Name() != "Unquote" || f.Pkg() == nil || !strings.HasSuffix(f.Pkg().Path(), "jsight-schema-go-library/bytes") {
+			return
+		}
+		n++
+		perFn[cs.Decl]++
+		key := fmt.Sprintf("%s#%d", c.P.DeclName(cs.Decl), perFn[cs.Decl])
+		recv := Recv(cs.Call)
+		cf := c.CFG(cs.Pk, cs.Body)
+		r := ast.Unparen(cf.Resolve(recv))
+		if inner, ok := r.(*ast.CallExpr); ok {
+			if g := Callee(info, inner); g != nil && g.Pkg() == f.Pkg() && recvNamedOf(g) == recvNamedOf(f) && !strings.HasPrefix(g.Name(), "TrimSpaces") {
+				sig := g.Type().(*types.Signature)
+				if sig.Results().Len() == 1 && types.Identical(sig.Results().At(0).Type(), f.Type().(*types.Signature).Results().At(0).Type()) {
+					sc.Violation(key, c.P.Pos(cs.Call.Pos()), "Unquote() is applied to the result of "+g.Name()+"(): the transformation saw the value with its quotes on, so a quoted value (e.g. \"[@cat]\") is treated differently from the same value written bare")
+					return
+				}
+			}
+		}
+		sc.Holds(key, c.P.Pos(cs.Call.Pos()), "applied to the value as written ("+types.ExprString(recv)+")")
+	})
+	if n == 0 {
+		sc.Undecided("sites", "-", "no Unquote call found")
+	}
 }
